@@ -173,7 +173,7 @@ def _mk_prof(cls):
     from photutils.profiles import CurveOfGrowth, RadialProfile
     yy, xx = np.mgrid[:21, :23]
     data = Gaussian2D(7.0, 10.3, 9.6, 2.1, 2.6, theta=0.4)(xx, yy) + 0.05
-    err = np.full(data.shape, 0.3)
+    err = (0.3 + 0.004 * np.arange(data.shape[1])[None, :] + 0.006 * np.arange(data.shape[0])[:, None])
     if cls == 'rp':
         return RadialProfile(data, (10.3, 9.6), np.array([0, 1, 2.5, 4, 6.]),
                              error=err)
